@@ -151,6 +151,7 @@ type ConnBackendPlan struct {
 	ParkRcpt       Dur
 	ParkLogout     Dur  // only applied when Logout is not called under Conn.locker
 	LogoutErr      bool // Logout returns an error (the interface allows it; nothing may depend on it)
+	PanicLogout    bool // every Logout on this connection panics
 	PanicReset     int  // the n-th Reset on this connection panics (1-based; 0 never)
 	Auth           *AuthPlan
 }
@@ -394,6 +395,12 @@ func (s *simSession) Logout() error {
 	ev := s.b.begin(s.conn, s.id, "Logout", "")
 	if s.cp.ParkLogout > 0 && !logoutLocked(s.b.simConn(s.conn)) {
 		ev.park(s.cp.ParkLogout)
+	}
+	if s.cp.PanicLogout {
+		ev.Panicked = true
+		ev.End = time.Now().UnixNano()
+		ev.Done = true
+		panic("simulated backend panic: in Logout")
 	}
 	if s.cp.LogoutErr {
 		err := errors.New("logout failed")
